@@ -135,7 +135,7 @@ def run(tier, seed, res):
     res.rule = RULE
     res.assumptions = ASSUME
     allow = os.environ.get("C14_ALLOW_PUTGET_CLASH", "") == "1"
-    nb, nplans, max_ops, budget, ranks = (10, 24, 60, 6 << 20, [2, 2, 3]) if quick else (120, 100, 120, 24 << 20, [2, 2, 3, 3, 4])
+    nb, nplans, max_ops, budget, ranks = (10, 24, 60, 6 << 20, [2, 2, 3]) if quick else (60, 40, 120, 24 << 20, [2, 2, 3, 3, 4])
     starve = os.environ.get("C14_ALLOW_CROSS_GET_STARVATION", "") == "1"
     cfgs = mb.generate(config(ranks), nb, seed)
     batches, excluded, excl2 = [], 0, 0
